@@ -173,6 +173,23 @@ CLAIMED = {
         note='Partial: inside filtering, removal and file I/O are validated, not proved; mesh colours are not exercised (ladybug.color '
              'is absent here). Trusted: Coq kernel, py2coq, harness oracles.',
         technique=T_Q),
+    'C09': dict(
+        text='Partial. Proved: for the generated Plane.xy_to_xyz / xyz_to_xy (translated from the source on every run) and every '
+             'orthonormal frame, result vertices built from 2D coordinates lie in the operand plane, map back to the same 2D '
+             'coordinates, and signed areas / orientation in the plane equal those of the 2D loops - a coplanar operation is its 2D '
+             'operation and keeps the operand normal; for the cell-set specification (CellSpec.v) the laws the property states: '
+             'pairwise disjoint pieces whose union is the face total its area, difference = A - intersection, union + intersection = '
+             'sum, a coplanar split re-assembles both operands. Searched against that specification (exactly, by unit-cell sets, in '
+             'random rational planes): coplanar_union / intersection / difference / split / union_all on lattice shapes with '
+             'rectangular holes (random, nested, edge-sharing, corner-touching, equal, crossing, rectangle at a reflex corner, '
+             'island in a hole, operand over a hole) incl. face.area of every result face, holes inside their boundary, normals and '
+             'planes; split_with_line / lines / polyline along lattice lines (interior, through vertices, along edges, through holes '
+             'and gaps) must return exactly the components cut by the line(s); split_through_holes by exact areas and membership; '
+             'general-position star polygons by exact membership and area identities.',
+        note='Partial: sweep, loop classification, graph splitter and hole merger are validated, not proved. Known findings: '
+             'split_with_polyline with a polyline vertex on a hole vertex; the triangle-regrouping fallback of split_through_holes. '
+             'Trusted: Coq kernel, py2coq, CellSpec.v as the specification, harness.',
+        technique=T_Q),
     'C16': dict(
         text='Proved for every orthonormal plane frame: the generated plane embedding is an isometry and preserves dot products; the '
              '3D closest-point-on-segment routine applied to embedded data returns the embedded result of the 2D routine (same '
